@@ -99,7 +99,8 @@ def run(c):
     specdir = obl.dir
     with open(os.path.join(specdir, "PieceExt.tla"), "w") as f:
         f.write(fnlib.piece_ext_module("PieceExt", ext))
-    ext_obl = fnlib.Obligations(c, "fn", "PieceExt", [("recorded results of the real code at the range extremes equal PieceFunc!Get / ValidDots", "Init", "All", True)], par=1)
+    ext_obl = fnlib.Obligations(c, "fn", "PieceExt", [("verdicts of the real NewFunc on %d dot lists at the range extremes equal PieceFunc!ValidDots" % len(ext),
+                                                       "Init", "AllValid", True)], par=1)
     # ---- TLC: clauses on every small list, values for seeded lists
     inp = c.path("piece_lists.ndjson")
     vlib.ndjson_write(inp, small_lists(c))
@@ -127,32 +128,43 @@ def run(c):
     for g in ("valid_lists", "invalid_lists", "x_before-first", "x_after-last", "x_at-dot", "x_between"):
         c.guard(g, cnt.get(g, 0))
     c.guard("values_where_rounding_shows", rounded)
-    # ---- Apalache results
-    bad = None
-    try:
-        ext_obl.wait()
-    except vlib.Infra as e:
-        if "unexpected outcome" not in str(e):
-            raise
-        bad = True
+    # ---- Apalache results on the recorded extreme cases: first the verdicts on the lists, then (if they agree) the values
+    def failing(prefix, ks):
+        o2 = fnlib.Obligations(c, "fn", "PieceExt", [("case %d" % k, "Init", "%s%dCase" % (prefix, k), True) for k in ks], par=3)
+        return [ks[i] for i, f_ in enumerate(o2.futs) if not f_.result()["holds"]]
+
+    def settled(o):
+        try:
+            o.wait()
+            return True
+        except vlib.Infra as e:
+            if "unexpected outcome" not in str(e):
+                raise
+            return False
+
     ext_failed = []
-    if bad:
-        # find the disagreeing recorded cases one by one
-        names = [("case %d" % k, "Init", "Case%d" % k, True) for k in range(len(ext))]
-        o2 = fnlib.Obligations(c, "fn", "PieceExt", names, par=3)
-        for f_ in o2.futs:
-            r = f_.result()
-            if not r["holds"]:
-                k = int(r["inv"][4:])
-                ext_failed.append(k)
-                cs = ext[k]
-                kind = "accepted-invalid-list" if not cs["panicked"] and any(int(v) > MAXVAL for d in cs["dots"] for v in d) else (
-                    "rejected-or-invalid" if cs["panicked"] else "value")
-                c.violation("interpolation-extremes", "piecefunc:extreme:" + kind,
-                            "real piecefunc code on %s gave %s (panicked=%s); PieceFunc.tla (Apalache) disagrees" % (
-                                json.dumps(cs["dots"]), json.dumps(dict(zip(cs["xs"], cs["ys"]))), cs["panicked"]), replay=cs)
+    if not settled(ext_obl):
+        ext_failed = failing("Valid", list(range(len(ext))))
+        for k in ext_failed:
+            cs = ext[k]
+            c.violation("interpolation-extremes", "piecefunc:extreme:" + ("rejected-valid-list" if cs["panicked"] else "accepted-invalid-list"),
+                        "real NewFunc %s the dot list %s; PieceFunc!ValidDots (Apalache) says the opposite" % (
+                            "refused" if cs["panicked"] else "accepted", json.dumps(cs["dots"])), replay=cs)
         if not ext_failed:
-            raise vlib.Infra("PieceExt conjunction failed but no single case does")
+            raise vlib.Infra("PieceExt AllValid failed but no single case does")
+        val_obl = None
+    else:
+        val_obl = fnlib.Obligations(c, "fn", "PieceExt", [("values of the real function on the accepted lists equal PieceFunc!Get", "Init", "AllValues", True)], par=1)
+        if not settled(val_obl):
+            ks = failing("Value", [k for k, cs in enumerate(ext) if not cs["panicked"]])
+            for k in ks:
+                cs = ext[k]
+                c.violation("interpolation-extremes", "piecefunc:extreme:value",
+                            "real piecefunc code on %s gave %s; PieceFunc!Get (Apalache) disagrees" % (
+                                json.dumps(cs["dots"]), json.dumps(dict(zip(cs["xs"], cs["ys"])))), replay=cs)
+            ext_failed += ks
+            if not ks:
+                raise vlib.Infra("PieceExt AllValues failed but no single case does")
     ext_values = sum(len(cs["ys"]) for cs in ext)
     c.guard("extreme_cases_valid", len([cs for cs in ext if not cs["panicked"]]))
     c.guard("extreme_cases_refused", len([cs for cs in ext if cs["panicked"]]))
@@ -171,7 +183,7 @@ def run(c):
         samples=rep["samples"][:2] + ext[:2],
     )
     cov.update(obl.summary())
-    cov["apalache_runs"] = cov["apalache_runs"] + ext_obl.results
+    cov["apalache_runs"] = cov["apalache_runs"] + ext_obl.results + (val_obl.results if val_obl else [])
     return c.finish("exploration", cov, assumptions=[
         "the clauses are proved for ONE pair of neighbouring dots over the whole range (Apalache); piece selection, out-of-range behaviour and list "
         "validation are model-checked by TLC on small lists only",
